@@ -15,6 +15,20 @@ Theorem C03_gen_route : forall (m : list (Z * bool)) (x : dualwriter) lvl,
 Proof. exact GenRouteP.gen_route. Qed.
 Print Assumptions C03_gen_route.
 
+(* tie for the blank-line path: the first statement of Entry.printImpl is translated (Gen/Routes.v; a Write on a
+   writer obtained from findWriter is part of the fragment, so that by-passing printOut is a different trace, not a
+   fall-back).  Before any formatting starts, printImpl delivers something exactly when the record is an Always
+   record whose message is blank after trimming "\n\r \t", and then ONE line feed through s.printOut at the
+   record's level - the delivery routine of every other record (C13_gen_print_out: the writers Get selects, each
+   told the level first, the error handling). *)
+Require Verif.Model.Level Verif.Model.RouteRef Verif.Gen.Routes Verif.Proofs.GenEntryRouteP.
+Theorem C03_gen_blank_line : forall f_trim f_findWriter lvl msg tr,
+  Routes.blank_line f_trim f_findWriter lvl msg tr =
+  if (lvl =? Level.lv_always) && bytes_eqb (f_trim msg RouteRef.blank_cutset) []
+  then tr ++ [RouteRef.DPrintOut lvl [10]] else tr.
+Proof. exact GenEntryRouteP.gen_blank_line. Qed.
+Print Assumptions C03_gen_blank_line.
+
 (* After ANY sequence of set/add/remove/reset operations (methods or New(...) options; [None] =
    a logger never given writers) the configuration is what the sequence denotes: set replaces,
    add appends, remove deletes that writer (its first registration), reset restores the defaults.
